@@ -1,0 +1,12 @@
+//go:build verif
+// +build verif
+
+package mem
+
+import "github.com/hack-pad/hackpadfs/keyvalue"
+
+// NewStoreVerif returns the package's real in-memory store, for verification harnesses that
+// wrap it or drive its transactions directly.
+func NewStoreVerif() keyvalue.TransactionStore {
+	return newStore()
+}
